@@ -1060,6 +1060,7 @@ class StochasticTMLE:
             bound = self._cb
 
         # This bounding step prevents continuous outcomes from being outside the range
+        self._q_bound_ = bound
         self._Qinit_ = probability_bounds(self._Qinit_, bounds=bound)
 
     def fit(self, p, conditional=None, samples=100, seed=None):
@@ -1147,6 +1148,7 @@ class StochasticTMLE:
                 y_star = self._outcome_model.predict(df)
 
             # Targeted Estimate
+            y_star = probability_bounds(y_star, bounds=self._q_bound_)  # same truncation as the initial predictions
             logit_qstar = np.log(probability_to_odds(y_star)) + self.epsilon  # logit(Y^*) + e
             q_star = odds_to_probability(np.exp(logit_qstar))  # Y^*
             q_i_star_list.append(q_star)  # Saving Y_i^* for marginal variance
